@@ -83,6 +83,14 @@ fn cases(tier: Tier) -> Vec<Case> {
     for s in seqs {
         out.push(Case::Sum { xs: s.iter().map(|k| sp[*k].clone()).collect() });
     }
+    // longer sums on a menu of lengths: rotating through the pool from every starting item
+    for len in [7usize, 8, 9, 16, 17, 33] {
+        for start in 0..sp.len() {
+            for step in [1usize, 2, 3] {
+                out.push(Case::Sum { xs: (0..len).map(|i| sp[(start + i * step) % sp.len()].clone()).collect() });
+            }
+        }
+    }
     out
 }
 
@@ -402,7 +410,8 @@ pub fn run(ctx: &Ctx, replay_file: Option<String>) -> ! {
     let meta = Meta::exploration(
         "every pair of numbers from (value table x 4 derivative contents) for comparisons and remainder in the forms \
          dual-dual / dual-float / float-dual, on Dual, Dual2 and Number; abs and the zero/one identities on every \
-         number; every sequence of length 0..L over a 5-number pool for sum. Non-trivial: comparisons of unequal \
+         number; every sequence of length 0..L over a 5-number pool for sum (items realised both as fresh numbers and as \
+         clones of one object), plus rotating sequences of length 7, 8, 9, 16, 17, 33. Non-trivial: comparisons of unequal \
          values with derivatives present, abs of negative numbers with derivatives, remainders with negative \
          non-integer quotient and derivatives, sums of >= 2 terms, identities on numbers that carry variables. \
          Oracle: float comparison; RefDual (by-name value/gradient/Hessian) for abs, rem = a - b*trunc(a/b), left fold \
